@@ -229,6 +229,14 @@ func runC06(c *Ctx) {
 						}
 					}
 				}
+				// the continuation cell receives exactly its three field stores: a later whole-struct
+				// assignment (e.g. replacing it by the caller's frame) changes what the plugin is handed
+				wholeStore := false
+				for _, r := range referrers(al) {
+					if st, ok := r.(*ssa.Store); ok && st.Addr == ssa.Value(al) {
+						wholeStore = true
+					}
+				}
 				pOK, chainOK, jbOK := false, false, false
 				if bo, ok := vals["p"].(*ssa.BinOp); ok && bo.Op == token.ADD && nodeIdx != nil && bo.X == nodeIdx {
 					if n, ok := constInt(bo.Y); ok && n == 1 {
@@ -244,8 +252,8 @@ func runC06(c *Ctx) {
 				}
 				chainOK = recvField(vals["chain"], "chain")
 				jbOK = recvField(vals["jumpBack"], "jumpBack")
-				good = pOK && chainOK && jbOK
-				why = fmt.Sprintf("continuation is {p: %s, chain: %s, jumpBack: %s}; expected {index of the running rule + 1, w.chain, w.jumpBack}", exprStr(vals["p"]), exprStr(vals["chain"]), exprStr(vals["jumpBack"]))
+				good = pOK && chainOK && jbOK && !wholeStore
+				why = fmt.Sprintf("continuation is {p: %s, chain: %s, jumpBack: %s}, overwritten as a whole afterwards: %v; expected exactly {index of the running rule + 1, w.chain, w.jumpBack}", exprStr(vals["p"]), exprStr(vals["chain"]), exprStr(vals["jumpBack"]), wholeStore)
 			}
 		}
 		c.check(good, "continuation@"+funcName(en), instrPos(reCall), "continuation = (p+1, w.chain, w.jumpBack) in a fresh walker", why)
